@@ -172,6 +172,8 @@ def units(prop):
         parser_for_backend_unit(prop),
         apply_known_unit(prop),
         main_load_unit(prop),
+        parse_repository_unit(prop),
+        instantiate_backend_unit(prop),
     ]
 
 
@@ -423,3 +425,127 @@ def main_load_post(prop):
 def main_load_unit(prop):
     return Unit(f'{prop}.main_load_file_options', MAIN_PY, 'main', main_load_setup, main_load_post(prop),
                 stmt=(_assign_to('cfg'), _assign_to('backend_type')), prop=prop)
+
+
+# ------------------------------------------------------------------ utils.parse_repository: what "-r <backend>:<connection string>" means
+def parse_repo_setup(b):
+    b.sym('uri', STR)
+    b.bind('logger', Obj('logger', **{n: Model(n, lambda i, s, a, k: iter([(s, None)])) for n in ('debug', 'info', 'warning', 'error')}))
+
+
+def parse_repo_post(prop):
+    def post(res):
+        b = res.builder
+        uri = b.st.lookup('uri').z
+        colon = z3.StringVal(':')
+        isid = lambda z: UF('isidentifier', STR, BOOL)(z)
+        n = 0
+        for p in res.paths:
+            if p.kind == 'return':
+                n += 1
+                v = p.value
+                ok = isinstance(v, tuple) and len(v) == 2
+                nm, cs = (sym.lift(v[0], STR).z, sym.lift(v[1], STR).z) if ok else (None, None)
+                # no colon: a local path; otherwise backend name = text before the FIRST colon, connection string = all the rest
+                res.oblige(p, f'{prop}.parse_repository.split_at_first_colon', z3.BoolVal(False) if not ok else z3.If(
+                    z3.Contains(uri, colon),
+                    z3.And(uri == z3.Concat(nm, colon, cs), z3.Not(z3.Contains(nm, colon)), isid(nm)),
+                    z3.And(nm == z3.StringVal('local'), cs == uri)))
+            elif p.kind == 'raise':
+                # rejected only when the text before the first colon is not a module name
+                head = z3.String('pr_head')
+                tail = z3.String('pr_tail')
+                res.oblige(p, f'{prop}.parse_repository.rejects_only_bad_backend_names', z3.And(
+                    z3.BoolVal(p.value.cls == 'ValueError'), z3.Contains(uri, colon),
+                    z3.ForAll([head, tail], z3.Implies(z3.And(uri == z3.Concat(head, colon, tail), z3.Not(z3.Contains(head, colon))), z3.Not(isid(head))))))
+        res.oblige([], f'{prop}.parse_repository.paths_checked', z3.BoolVal(n >= 2))
+    return post
+
+
+def parse_repository_unit(prop):
+    return Unit(f'{prop}.parse_repository', UTILS_PY, 'parse_repository', parse_repo_setup, parse_repo_post(prop), prop=prop)
+
+
+# ------------------------------------------------------------------ __main__._instantiate_backend: which options reach the backend constructor
+def inst_backend_setup(b):
+    from vf.interp import IterSpec
+    n = z3.Int('n_ctor_params')
+    b.assume(n >= 0)
+    KW = sym.const(KIND, 'KEYWORD_ONLY')
+    PARAM.attrs = {'kind': ops.Property(lambda i, s, v: iter([(s, SV(KIND, UF('param_kind', PARAM, KIND)(v.z)))])), 'KEYWORD_ONLY': KW}
+    b.KW = KW
+    params = Obj('parameters', items=Model('items', lambda i, s, a, k: iter([(s, IterSpec(n, lambda kk: (SV(STR, UF('param_name', INT, STR)(kk)), SV(PARAM, UF('param_obj', INT, PARAM)(kk)))))])))
+    b.bind('inspect', Obj('inspect', signature=Model('signature', lambda i, s, a, k: iter([(s, Obj('signature', parameters=params))]))))
+    try:
+        marker_name = [t.id for st_ in source.load_module(MAIN_PY)[0].body if isinstance(st_, ast.Assign) and isinstance(st_.value, ast.Call)
+                       and isinstance(st_.value.func, ast.Name) and st_.value.func.id == 'object' for t in st_.targets if isinstance(t, ast.Name)]
+    except Exception:
+        marker_name = []
+    MARK = sym.const(Opt(ANY), 'missing_marker')       # the module's "no source supplied it" marker: a value like any other, told apart by identity
+    b.assume(z3.Not(Opt(ANY).is_none(MARK.z)))
+    b.MARK = MARK
+    for nm in marker_name:
+        b.bind(nm, MARK)
+    NS = models.opaque_type('Namespace', pytype='dict')
+
+    def ns_getitem(interp, st, v, idx):
+        r = SV(Opt(ANY), UF('ns_value', NS, STR, Opt(ANY))(v.z, sym.lift(idx, STR).z))
+        st.emit('namespace_read', key=idx, value=r)
+        yield st, r
+
+    NS.getitem = ns_getitem
+    b.sym('namespace', NS)
+    b.sym('connection_string', STR)
+
+    def ctor(interp, st, args, kwargs):
+        st.emit('backend_ctor', args=list(args), kwargs=dict(kwargs))
+        yield st, Obj('backend')
+
+    b.bind('backend_type', Model('backend_type', ctor))
+
+
+def inst_backend_post(prop):
+    def post(res):
+        b = res.builder
+        n = 0
+        for p in res.body_paths('For#1'):
+            evs = p.st.events
+            start = [i for i, e in enumerate(evs) if e.kind == 'loop_body' and e.data.get('loop') == 'For#1'][-1]
+            it = evs[start:]
+            arg = p.st.lookup(_loop_vars(res, 'For#1', ('name', 'arg'))[1])
+            name = p.st.lookup(_loop_vars(res, 'For#1', ('name', 'arg'))[0])
+            is_kw = UF('param_kind', PARAM, KIND)(arg.z) == b.KW.z
+            stores = [e for e in it if e.kind in ('dict_store', 'py_dict_store', 'setitem')]
+            reads = [e for e in it if e.kind == 'namespace_read']
+            n += 1
+            # a keyword-only constructor parameter is passed on with the value the merged options hold for it - ALSO when that
+            # value is None (the text `none` is a value) - and left out only when no source supplied it (the missing marker)
+            passed = [e for e in it if e.kind == 'dict_store']
+            if reads:
+                v = reads[0].data['value'].z
+                missing = v == b.MARK.z
+                res.oblige(p, f'{prop}.instantiate_backend.value_passed_unless_missing', z3.And(
+                    z3.Implies(z3.And(is_kw, missing), z3.BoolVal(not passed)),
+                    z3.Implies(z3.And(is_kw, z3.Not(missing)), z3.BoolVal(len(passed) == 1) if len(passed) != 1 else z3.And(
+                        sym.lift(passed[0].data['key'], STR).z == name.z, sym.lift(passed[0].data['value'], Opt(ANY)).z == v))))
+            else:
+                res.oblige(p, f'{prop}.instantiate_backend.only_keyword_only_parameters', z3.And(z3.Not(is_kw), z3.BoolVal(not passed)))
+        res.oblige([], f'{prop}.instantiate_backend.iterations_checked', z3.BoolVal(n >= 3))
+    return post
+
+
+def _loop_vars(res, loop, defaults):
+    node = getattr(res.interp, 'loop_nodes', {}).get(loop)
+    t = getattr(node, 'target', None)
+    if isinstance(t, ast.Tuple) and all(isinstance(e, ast.Name) for e in t.elts) and len(t.elts) == len(defaults):
+        return tuple(e.id for e in t.elts)
+    return defaults
+
+
+def instantiate_backend_unit(prop):
+    from vf.interp import LoopSpec
+    t = lambda ctx: z3.BoolVal(True)
+    return Unit(f'{prop}.instantiate_backend', MAIN_PY, '_instantiate_backend', inst_backend_setup, inst_backend_post(prop),
+                loops={'For#1': LoopSpec(t, modifies=['value'] + [('heap', sym.DictC(STR, Opt(ANY)), f) for f in ('has', 'val', 'n', 'order')],
+                                         name='For#1', types={'value': Opt(ANY)})},
+                local_types={'kwonly': sym.Dict(STR, Opt(ANY))}, prop=prop)
